@@ -121,9 +121,28 @@ def make_trace(seed, tier, idx=None):
         if e["map"] and r.random() < 0.6 and nodes[b]["rid"] and a != b:
             nodes[a]["rid"] = nodes[b]["rid"] + "-m%d" % a
     root_fmt = "hdf5" if local_only else r.choice(["hdf5", "hdf5", "http", "http", "s3", "dcor"])
-    return {"knobs": {"n": n_ev, "klass": klass, "root": 0, "root_fmt": root_fmt,
+    scenario = None
+    if r.random() < 0.07:
+        # targeted: the root declares features of an origin that is NOT the same measurement, reachable only over a
+        # connection that comes and goes from the start (availability and identity checks race with the weather)
+        scenario = "flaky_mismatch"
+        klass = "weather"
+        if N < 2:
+            nodes.append({"rid": None, "feats": sorted(r.sample(FEATS, r.randint(1, 4)))})
+        nodes[1]["rid"] = r.choice(["other-1", "other-1", None, (nodes[0]["rid"] or base) + "-x1"])
+        if nodes[0]["rid"] is None:
+            nodes[0]["rid"] = base
+        edges = [e for e in edges if not (e["src"] == 0 and e["dst"] == 1)]
+        edges.insert(0, {"src": 0, "dst": 1, "kind": r.choice(["http", "http", "s3", "dcor"]), "name": "e_fm", "map": None, "mseed": 0,
+                         "feats": sorted(r.sample(nodes[1]["feats"], r.randint(1, len(nodes[1]["feats"])))), "loc": "url", "host": r.randrange(2)})
+        root_fmt = r.choice(["hdf5", "hdf5", "hdf5", root_fmt])
+    return {"knobs": {"n": n_ev, "klass": klass, "root": 0, "root_fmt": root_fmt, "scenario": scenario,
                       "checker": r.choice(["inline", "thread", "thread", "never", "mixed"]),
-                      "trace_rate": r.choice([0.0, 0.0, 0.05, 0.3]), "fault_rate": r.choice([0.0, 0.1]) if klass == "weather" else 0.0},
+                      "trace_rate": r.choice([0.0, 0.0, 0.05, 0.3]), "fault_rate": r.choice([0.0, 0.1]) if klass == "weather" else 0.0,
+                      # a host whose connection comes and goes from the very first open on
+                      "init_flaky": ({"host": r.choice([0, 1, 2, 3, "all", "all", "all"]), "fseed": r.randrange(1, 1 << 20)}
+                                     if klass == "weather" and r.random() < 0.4 else None)
+                      if scenario is None else {"host": "all", "fseed": r.randrange(1, 1 << 20)}},
             "graph": {"nodes": nodes, "edges": edges}, "max_ops": r.choice([6, 12, 24]), "ops": None}
 
 
@@ -153,6 +172,10 @@ class World:
         self.ds_fmt = None
         self.faulted = False
         self.write_nodes()
+        if self.k.get("init_flaky"):
+            fl = self.k["init_flaky"]
+            for hi in (range(4) if fl["host"] == "all" else [fl["host"]]):
+                self.do_weather({"k": "weather", "host": hi, "state": "flaky", "node": 0, "fseed": fl["fseed"] + hi})
 
     # ---------------- construction ----------------
     def path(self, i):
@@ -328,7 +351,13 @@ class World:
         if self.ds is None:
             return {"k": "open"}
         hist = getattr(self, "op_hist", [])
-        if self.k["klass"] == "weather" and hist[-1:] in (["open"], ["heal"]) and r.random() < 0.35:
+        if self.k.get("scenario") == "flaky_mismatch" and r.random() < 0.6:
+            root = self.k["root"] % len(self.nodes)
+            declared = sorted({f for e in self.edges if e["src"] == root and isinstance(e["feats"], list) for f in e["feats"]})
+            if declared:
+                return r.choice([{"k": "read", "feat": r.choice(declared), "how": "all", "i": 0}, {"k": "close"},
+                                 {"k": "read", "feat": r.choice(declared), "how": "idx", "i": r.randrange(1 << 16)}])
+        if self.k["klass"] == "weather" and not self.k.get("scenario") and hist[-1:] in (["open"], ["heal"]) and r.random() < 0.35:
             # (before anything was listed: afterwards the listing is cached and the window is closed)
             return {"k": "verify"}
         if self.k["klass"] == "weather" and hist[-1:] == ["verify"] and r.random() < 0.7:
@@ -357,7 +386,13 @@ class World:
         if x < 0.52:
             return {"k": "contains", "feat": r.choice(FEATS)}
         if x < 0.86:
-            return {"k": "read", "feat": r.choice(FEATS), "how": r.choice(["all", "idx", "slice"]), "i": r.randrange(1 << 16)}
+            feat = r.choice(FEATS)
+            root = self.k["root"] % len(self.nodes)
+            declared = sorted({f for e in self.edges if e["src"] == root and isinstance(e["feats"], list) for f in e["feats"]})
+            if declared and r.random() < 0.5:
+                # what the root's basin definitions declare (whether or not the origin may be used)
+                feat = r.choice(declared)
+            return {"k": "read", "feat": feat, "how": r.choice(["all", "idx", "slice"]), "i": r.randrange(1 << 16)}
         if x < 0.94:
             return {"k": "close"}
         return {"k": "heal"}
